@@ -100,8 +100,8 @@ class EAS:
         mask = ~mask
 
         # phots and theta arrays with default 0 and 1.5 values.
-        dphots = np.zeros_like(beta)
-        thetaCh100PeV = np.full_like(beta, 1.5)
+        dphots = np.zeros(np.shape(beta), dtype=np.float64)
+        thetaCh100PeV = np.full(np.shape(beta), 1.5, dtype=np.float64)
 
         # Run CphotAng on in-bounds events
         dphots[mask], thetaCh100PeV[mask] = self.CphotAng(
